@@ -1066,9 +1066,51 @@ def ftable(g, labels=3, elabels=3):
     return [obj, kind, g.r.choice([0, 3])]
 
 
+def free_image(F, f):
+    """object image fw (segmented array) and a typed operation image fx (one free operation per hyperedge,
+    fresh nodes) for the object table F[0] and the open hypergraph f"""
+    s, t, h = f
+    w = h[2]
+    imgs = [list(F[0][o]) if o < len(F[0]) else [o] for o in w]
+    fw = [[[len(i) for i in imgs], sum(len(i) for i in imgs) + 1], [x for i in imgs for x in i]]
+    def lists(ic):
+        out, k = [], 0
+        for n in ic[0][0]:
+            out.append(ic[1][0][k:k + n])
+            k += n
+        return out
+    ss, tt = lists(h[0]), lists(h[1])
+    nodes, es, et = [], [], []
+    for a, b in zip(ss, tt):
+        ea, eb = [], []
+        for v in a:
+            for x in imgs[v]:
+                ea.append(len(nodes)); nodes.append(x)
+        for v in b:
+            for x in imgs[v]:
+                eb.append(len(nodes)); nodes.append(x)
+        es.append(ea); et.append(eb)
+    n = len(nodes)
+    mk = lambda ll: [[[len(l) for l in ll], sum(len(l) for l in ll) + 1], [[v for l in ll for v in l], n]]
+    fx = [[[v for l in es for v in l], n], [[v for l in et for v in l], n], [mk(es), mk(et), nodes, [10 + x for x in h[3]]]]
+    return fw, fx
+
+
 def C12(g, tier):
     S = lambda f: ["s", f]
     Lx = lambda f: ["l", f]
+    for _ in range(N(tier, 100, 1000)):
+        F = ftable(g)
+        f = g.ohg(maxar=2, labels=3)
+        fw, fx = free_image(F, f)
+        bk = g.r.choice(BACKENDS)
+        nt = any(len(o) != 1 for o in F[0]) and len(f[2][3]) > 0
+        yield sx(["f_spider_map_arrow", bk, f, fw, fx]), nt
+        yield sx(["f_to_operations", bk, f]), len(f[2][3]) > 0
+        leg = g.r.choice([f[0], f[1], f[2][0][1], f[2][1][1]])
+        yield sx(["f_map_half_spider", bk, fw, leg]), len(leg[0]) > 0
+        if g.r.random() < 0.15:   # a leg over the wrong number of nodes: same refusal / panic
+            yield sx(["f_map_half_spider", bk, fw, g.ff()]), True
     for _ in range(N(tier, 300, 3000)):
         F = ftable(g)
         f = g.ohg(maxar=2, labels=3)
@@ -1156,6 +1198,19 @@ def circuit(g, nin, nops):
 
 def C14(g, tier):
     Lx = lambda f: ["l", f]
+    # internal steps of the optic construction (verif-hooks): block interleaving and the partial dagger
+    for _ in range(N(tier, 60, 600)):
+        bk = g.r.choice(BACKENDS)
+        k = g.size(4)
+        a, b = g.ics(nseg=k), g.ics(nseg=k if g.r.random() < 0.9 else k + 1)
+        yield sx(["f_interleave_blocks", bk, a, b]), k >= 2
+        fa, fb, ra, rb = (g.ics(nseg=g.size(3)) for _ in range(4))
+        n_s = len(fa[1]) + len(rb[1])
+        n_t = len(fb[1]) + len(ra[1])
+        if g.r.random() < 0.1:
+            n_s += 1
+        c = g.ohg(ni=n_s, no=n_t, nn=g.r.randint(1, 6))
+        yield sx(["f_partial_dagger", bk, c, fa, fb, ra, rb]), n_s + n_t >= 2
     for _ in range(N(tier, 150, 1500)):
         P = otable(g)
         lf = g.lohg(maxar=2, ne=g.size(2), nn=g.size(3))
@@ -1270,6 +1325,16 @@ def C15(g, tier):
         adj = g.icf(nseg=n, tgt=n) if n else [[[], 1], [[], 0]]
         yield sx(["g_kahn", bk, adj]), n >= 3
         yield sx(["g_indegree", adj]), n >= 3
+        # internal steps of Kahn's algorithm (verif-hooks): indegree relative to a frontier, filter
+        fr = g.ff(t=n) if n else [[], 0]
+        if g.r.random() < 0.1:
+            fr = g.ff()           # frontier over the wrong number of nodes: must panic alike
+        yield sx(["g_dense_relative_indegree", adj, fr]), n >= 3
+        yield sx(["g_sparse_relative_indegree", bk, adj, fr]), n >= 3
+        k2 = g.size(5)
+        pred = [g.r.choice([0, 1, 1, 2]) if g.r.random() < 0.2 else g.r.choice([0, 1]) for _ in range(k2)]
+        vals = g.nats(k2 if g.r.random() < 0.9 else k2 + 1, 5)
+        yield sx(["g_filter", bk, vals, pred]), k2 >= 2
 
 
 def single_writer_circuit(g, wide=0):
